@@ -1,12 +1,12 @@
 CONSTANTS
   Configs <- TierConfigs
-  Tier = "quick"
+  Tier = "mid"
   CyclesFromEveryNode = FALSE
-  RefDepthChecked = FALSE
-  StopAfterAnswer = FALSE
-  ResumeAllEdges = FALSE
+  RefDepthChecked = TRUE
+  ExitLinked = TRUE
+  StopAfterAnswer = TRUE
+  ResumeAllEdges = TRUE
   StepCap = 600
 SPECIFICATION Spec
 CHECK_DEADLOCK FALSE
-INVARIANT FollowsGraph
 INVARIANT Safe
